@@ -7,6 +7,8 @@ import RodbusModel.Props.C14
 #print axioms Rodbus.C14.kth_delay
 #print axioms Rodbus.C14.kth_delay_created
 #print axioms Rodbus.C14.kth_delay_after_reset
+#print axioms Rodbus.C14.kth_delay_get
+#print axioms Rodbus.C14.delay_saturates
 #print axioms Rodbus.C14.disconnect_is_min
 #print axioms Rodbus.C14.disconnect_after_failures
 #print axioms Rodbus.C14.delay_le_max
